@@ -539,7 +539,7 @@ class FnEmitter:
                         pp = prev_sig(toks, st)
                         if toks[pp].kind == 'p' and toks[pp].text in ('*', '-'):
                             ppp = prev_sig(toks, pp)
-                            unary = not (toks[ppp].kind in ('id', 'num') or (toks[ppp].kind == 'p' and toks[ppp].text in (')', ']')))
+                            unary = not ((toks[ppp].kind == 'id' and toks[ppp].text not in ('if', 'while', 'match', 'return', 'in', 'let', 'else', 'as', 'mut')) or toks[ppp].kind == 'num' or (toks[ppp].kind == 'p' and toks[ppp].text in (')', ']')))
                             if unary:
                                 start = toks[pp].start
                         edits.append((start, start, 'i64_to_f64(', None))
